@@ -36,11 +36,14 @@ CONSTANTS Keys,        \* keys of the shared namespace
           GetModes,    \* subset of {"set", "only", "nil"}: setFunc given / nil setFunc / setFunc returning nil
           Ops,         \* subset of {"delete", "evict", "evictall", "setcap", "close", "closeforce"}
           RecheckRef,  \* TRUE as coded: mBucket.delete re-checks ref == 0 under the bucket lock
-          AtomicFin,   \* FALSE as coded: Node.callFinalizer reads n.value, calls Release, then clears it, with no lock
-          RecheckClosed, \* FALSE as coded: on a closed cache unRefExternal calls the finaliser without re-checking ref
-          CloseExcl    \* environment assumption (TRUE in the configurations that must hold as coded): Close is not
-                       \* called while a Handle.Release is between its decrement and its delete step, and no
-                       \* Handle.Release / SetCapacity runs while a force Close is enumerating the nodes
+          AtomicFin,   \* TRUE as coded (since fix e7aceb0): Node.callFinalizer takes-and-clears n.value / n.delFuncs
+                       \* under the node lock; FALSE: reads n.value, calls Release, then clears it, with no lock
+          RecheckClosed, \* TRUE as coded (since fix 9182bd2): on a closed cache unRefExternal calls the finaliser
+                       \* only if ref is still 0; FALSE: without re-checking
+          CloseExcl    \* FALSE: Close may overlap anything but the read-locked calls (the property's quantifier).
+                       \* TRUE: environment assumption under which even the code before the two fixes satisfies
+                       \* C17: Close is not called while a Handle.Release is between its decrement and its delete
+                       \* step, and no Handle.Release / SetCapacity runs while a force Close enumerates the nodes
 
 VARIABLES
   \* ---- observable layer
